@@ -363,6 +363,80 @@ def determinism_scan(modules):
                 out.append((name, n, f"use of {imported[n.value.id]}.{n.attr}"))
             if isinstance(n, ast.Attribute) and n.attr in ("environ", "getpid", "urandom") and isinstance(n.value, ast.Name) and imported.get(n.value.id) == "os":
                 out.append((name, n, f"use of os.{n.attr}"))
+        out += [(name, n, w) for n, w in _unordered_flows(tree)]
+    return out
+
+
+def _is_set_expr(e, sets, dsets):
+    if isinstance(e, (ast.Set, ast.SetComp)):
+        return True
+    if isinstance(e, ast.Call) and isinstance(e.func, ast.Name) and e.func.id in ("set", "frozenset"):
+        return True
+    if isinstance(e, ast.Name) and e.id in sets:
+        return True
+    if isinstance(e, ast.Subscript) and isinstance(e.value, ast.Name) and e.value.id in dsets:
+        return True
+    if isinstance(e, ast.BinOp) and isinstance(e.op, (ast.BitOr, ast.BitAnd, ast.Sub, ast.BitXor)) and (_is_set_expr(e.left, sets, dsets) or _is_set_expr(e.right, sets, dsets)):
+        return True
+    if isinstance(e, ast.Call) and isinstance(e.func, ast.Attribute) and e.func.attr in ("union", "intersection", "difference", "symmetric_difference", "copy") and _is_set_expr(e.func.value, sets, dsets):
+        return True
+    return False
+
+
+def _unordered_flows(tree):
+    """per function: names holding sets (set(), {..}, values of a defaultdict(set)) and lists made from them without a total
+    sort; such a collection consumed in order (a for loop, a comprehension, sorted(.., key=..) whose ties keep the set's order,
+    list(), join) makes the result depend on hash randomisation"""
+    out = []
+    for fn in ast.walk(tree):
+        if not isinstance(fn, (ast.FunctionDef, ast.AsyncFunctionDef)):
+            continue
+        sets, dsets, unordered = set(), set(), set()
+        grew = True
+        while grew:
+            grew = False
+            for n in ast.walk(fn):
+                if isinstance(n, ast.Assign) and len(n.targets) == 1 and isinstance(n.targets[0], ast.Name):
+                    t, v = n.targets[0].id, n.value
+                    if isinstance(v, ast.Call) and norm_text(v.func).split(".")[-1] == "defaultdict" and v.args and isinstance(v.args[0], ast.Name) and v.args[0].id in ("set", "frozenset"):
+                        if t not in dsets:
+                            dsets.add(t); grew = True
+                    elif _is_set_expr(v, sets, dsets):
+                        if t not in sets:
+                            sets.add(t); grew = True
+                    elif (isinstance(v, ast.Call) and isinstance(v.func, ast.Name) and v.func.id in ("list", "tuple") and v.args and (_is_set_expr(v.args[0], sets, dsets) or (isinstance(v.args[0], ast.Name) and v.args[0].id in unordered))) \
+                            or (isinstance(v, ast.ListComp) and any(_is_set_expr(g.iter, sets, dsets) or (isinstance(g.iter, ast.Name) and g.iter.id in unordered) for g in v.generators)):
+                        if t not in unordered:
+                            unordered.add(t); grew = True
+                if isinstance(n, (ast.For, ast.comprehension)) and isinstance(n.iter, ast.Call) and isinstance(n.iter.func, ast.Attribute) and n.iter.func.attr in ("items", "values") \
+                        and isinstance(n.iter.func.value, ast.Name) and n.iter.func.value.id in dsets:
+                    tgt = n.target
+                    val = tgt.elts[1] if n.iter.func.attr == "items" and isinstance(tgt, ast.Tuple) and len(tgt.elts) == 2 else (tgt if n.iter.func.attr == "values" else None)
+                    if isinstance(val, ast.Name) and val.id not in sets:
+                        sets.add(val.id); grew = True
+        if not (sets or dsets):
+            continue
+
+        def loose(e):
+            return _is_set_expr(e, sets, dsets) or (isinstance(e, ast.Name) and e.id in unordered)
+        for n in ast.walk(fn):
+            if isinstance(n, ast.For) and loose(n.iter):
+                out.append((n, f"iteration over the set {norm_text(n.iter)} (order depends on hash randomisation)"))
+            elif isinstance(n, ast.comprehension) and loose(n.iter) and not isinstance(getattr(n, "_parent", None), (ast.SetComp,)):
+                # feeding a total sort / a set / a membership test is fine; a list or generator keeps the order
+                par = getattr(n, "_parent", None)
+                if isinstance(par, (ast.ListComp, ast.GeneratorExp, ast.DictComp)):
+                    gp = getattr(par, "_parent", None)
+                    total = isinstance(gp, ast.Call) and isinstance(gp.func, ast.Name) and ((gp.func.id == "sorted" and not gp.keywords) or gp.func.id in ("set", "frozenset", "sum", "len", "any", "all", "min", "max"))
+                    assigned = isinstance(gp, ast.Assign)
+                    if not total and not assigned:
+                        out.append((par, f"iteration over the set {norm_text(n.iter)} (order depends on hash randomisation)"))
+            elif isinstance(n, ast.Call) and isinstance(n.func, ast.Name) and n.func.id == "sorted" and n.args and loose(n.args[0]) and any(k.arg == "key" for k in n.keywords):
+                out.append((n, f"sorted({norm_text(n.args[0])}, key=...) over a set (elements with equal keys keep the set's order, which depends on hash randomisation)"))
+            elif isinstance(n, ast.Call) and isinstance(n.func, ast.Attribute) and n.func.attr == "sort" and isinstance(n.func.value, ast.Name) and n.func.value.id in unordered and any(k.arg == "key" for k in n.keywords):
+                out.append((n, f"{n.func.value.id}.sort(key=...) of a list made from a set (elements with equal keys keep the set's order, which depends on hash randomisation)"))
+            elif isinstance(n, ast.Call) and isinstance(n.func, ast.Attribute) and n.func.attr == "join" and n.args and loose(n.args[0]):
+                out.append((n, f"join over the set {norm_text(n.args[0])} (order depends on hash randomisation)"))
     return out
 
 
@@ -421,6 +495,44 @@ def rule_memo(ck):
                 if written:
                     ck.violation(written[0], f"{q.split('::')[1]} has a mutable default argument ({norm_text(dflt)}) and updates a parameter in place: the default object is created once per process and keeps what earlier assemblies put in it",
                                  construct=f"mutable default updated in {q.split('::')[1]}")
+    # class-level containers: one object for every instance of the class. Updated through an instance (self.x.append(..)) of a class
+    # that is created once per assembly, it carries one assembly's registrations into the next
+    SHARED_BY_DESIGN = {
+        ("reports::handle_reports", "handlers_stack"): "the stack of open report scopes: one per process on purpose, balanced by G5.bal",
+        ("deferred::Awaiting", "awaiting_stack"): "the stack of values being evaluated: one per process on purpose, balanced by G5.bal",
+    }
+    for cq, cls in repo.all_classes():
+        for st in cls.body:
+            if not (isinstance(st, ast.Assign) and len(st.targets) == 1 and isinstance(st.targets[0], ast.Name)):
+                continue
+            v = st.value
+            if not (isinstance(v, (ast.List, ast.Dict, ast.Set)) or (isinstance(v, ast.Call) and isinstance(v.func, (ast.Name, ast.Attribute)) and norm_text(v.func).split(".")[-1] in ("list", "dict", "set", "bytearray", "defaultdict", "CaseInsensitiveDict", "OrderedDict"))):
+                continue
+            attr = st.targets[0].id
+            ck.instance(("class-container", cq, attr), {"class": cq, "attribute": attr, "value": norm_text(v)[:40]}, fn=cq)
+            if (cq, attr) in SHARED_BY_DESIGN:
+                continue
+            # re-bound per instance in __init__ ?
+            init = next((m for m in cls.body if isinstance(m, ast.FunctionDef) and m.name == "__init__"), None)
+            rebound = init is not None and any(isinstance(a, ast.Assign) and any(isinstance(t, ast.Attribute) and t.attr == attr and isinstance(t.value, ast.Name) and t.value.id == "self" for t in a.targets)
+                                               for a in walk_local(init))
+            if rebound:
+                continue
+            writes = []
+            for q2, fn2 in repo.all_functions():
+                if isinstance(fn2, ast.Lambda):
+                    continue
+                for m in walk_local(fn2):
+                    if isinstance(m, ast.Call) and isinstance(m.func, ast.Attribute) and m.func.attr in MUTATORS and isinstance(m.func.value, ast.Attribute) and m.func.value.attr == attr:
+                        writes.append((q2, m))
+                    if isinstance(m, (ast.Assign, ast.AugAssign)):
+                        for t in (m.targets if isinstance(m, ast.Assign) else [m.target]):
+                            if isinstance(t, ast.Subscript) and isinstance(t.value, ast.Attribute) and t.value.attr == attr:
+                                writes.append((q2, m))
+            if writes:
+                ck.violation(st, f"{cq.split('::')[1]}.{attr} is a class-level {norm_text(v)[:20]}: ONE object shared by every {cq.split('::')[1]} of the process, and "
+                                 f"{writes[0][0].split('::')[1]} updates it in place ({norm_text(writes[0][1])[:60]}). What one assembly registers there (outputs to write, symbols, counters) is still there "
+                                 "for the next assembly in the same process", construct=f"class-level container {cq.split('::')[1]}.{attr} updated through instances")
     if n < 300:
         ck.unknown(f"only {n} functions seen (over 500 in the package)")
 
